@@ -113,6 +113,8 @@ class Features:
     enum_first_zero_bias: bool = True
     enum_first_zero: bool = False  # first member is always 0 (keeps recorded finding D4b out of a check)
     signed_nonstd: bool = True  # signed widths other than 8/16/32/64
+    typedef_syntax: bool = False  # deprecated `typedef T Name` spelling of an alias, sometimes
+    max_bytes_option: bool = False  # `option max_bytes = N` (N >= the message's size) on some messages
     shared_nested_names: bool = True  # sometimes give nested definitions of different parents ONE short name (legal: names are per scope)
     prune_unused_imports: bool = False  # drop imports no type uses (recorded finding D10: unused Go import)
 
@@ -319,7 +321,7 @@ class _Builder:
         d = self.draw
         name = self.names.take(d, TYPE_WORDS)
         t = self.any_type(self.feat.bits_budget, in_alias=True)
-        return Alias(name, t)
+        return Alias(name, t, typedef_syntax=self.feat.typedef_syntax and d(st.integers(0, 5)) == 0)
 
     def make_message(self, depth: int, budget: int) -> Message:
         d = self.draw
@@ -458,6 +460,13 @@ def units(draw: Any, feat: Optional[Features] = None) -> Unit:
         prune_unused_imports(b.unit)
     if feat.shared_nested_names and feat.nested and feat.enums and draw(st.integers(0, 2)) == 0:
         share_nested_names(draw, b.unit, feat)
+    if feat.max_bytes_option:
+        from .model import iter_messages
+
+        for f in b.unit.files:
+            for m in iter_messages(f):
+                if draw(st.integers(0, 9)) == 0 and ref.nbits(m) > 0:
+                    m.max_bytes = ref.nbytes(m) + draw(st.sampled_from([0, 0, 1, 7]))
     return b.unit
 
 
